@@ -764,6 +764,14 @@ def totals_from_inverse(flat, Minv, scaled=False, unit_scaled=True):
     return rows
 
 
+def solver_slack(ex, atol=1e-11):
+    """bound on the error of a solution whose residual norm met the iterative solvers' absolute tolerance:
+    |x - x*| <= |M^-1| |r| <= n * max|M^-1_ij| * atol  (the tolerance an iterative configuration is entitled to)"""
+    n = len(ex['Minv'])
+    mx = max([abs(v) for row in ex['Minv'] for v in row] + [F(1)])
+    return float(n * mx) * atol
+
+
 def magnitude_ok(ex, bits=40, need_dyadic=True):
     """all entries of the inverse and of the state are of moderate size (and dyadic), so that the sums of
     products formed by a one-pass (RunOnce) evaluation are exact in binary64"""
